@@ -142,7 +142,7 @@ class RosenbrockFunctional(Functional):
                 # TODO: Implement optimized version of this that does not need
                 # a matrix.
                 shape = (functional.domain.size, functional.domain.size)
-                matrix = np.zeros(shape)
+                matrix = np.zeros(shape, dtype=self.domain.dtype)
 
                 # Straightforward computation
                 for i in range(0, self.domain.size - 1):
